@@ -285,7 +285,7 @@ class InspectFunctionIndirect(object):
                     f"Wrong number of args: expected 2+, got {node.args}"
                 )
             store_path = InspectFunction._retrieve_store_path(
-                node.args[0], mod, gctx, local_path
+                node.args[0], mod, gctx, local_path, var_names
             )
             called_path_ast = node.args[1]
             if isinstance(called_path_ast, ast.Name):
@@ -334,7 +334,7 @@ class InspectFunctionIndirect(object):
             if len(node.args) != 1:
                 raise DDSException(f"Wrong number of args: expected 1, got {node.args}")
             store_path = InspectFunction._retrieve_store_path(
-                node.args[0], mod, gctx, local_path
+                node.args[0], mod, gctx, local_path, var_names
             )
             _logger.debug(f"inspect_call:eval: store_path: {store_path}")
             return store_path
